@@ -393,6 +393,10 @@ def straightline_env(stmts, env=None):
                 for t, v in zip(tg.elts, vals):
                     if isinstance(t, ast.Name):
                         env[t.id] = v
+        elif isinstance(st, ast.AugAssign) and isinstance(st.target, ast.Name):
+            if st.target.id in env:
+                env[st.target.id] = ast.BinOp(left=clone(env[st.target.id]), op=st.op, right=subst(st.value))
+            continue
         elif isinstance(st, (ast.Expr, ast.Assert, ast.Pass, ast.AugAssign, ast.Continue, ast.Break, ast.Return)):
             continue
         else:
